@@ -1047,3 +1047,93 @@ func ProxyTrees(tier string) []*Node {
 	}
 	return out
 }
+
+// ---- round 8: the same exchange again ("repeat") ----
+//
+// Every other family gives each exchange of a history an id of its own (the position in the history, carried in the
+// URL), so no two error messages of a history are ever equal. In the repeat family the id belongs to the *symbol*:
+// playing a symbol again is the same exchange again - same URL, same method, same headers, same status - as a client
+// that retries a request produces it, and every verifier that misses its expectation builds the very same error
+// message again. The statement counts evaluations, not distinct messages: "one error for each time a verifier's
+// expectation was evaluated and not met".
+
+// AlphabetRepeat is the alphabet of the repeat family and the id of each symbol: the alphabet of the variants family
+// (routing x met/unmet decision paths, every shape that bears on a verifier kind of the tree, API-marked messages,
+// responses that take the other branch of a header / cookie filter), plus, for every plain message without a shape
+// that makes some verifier record a failure, a twin: the same message under another id, i.e. a different failing
+// message in between two equal ones. Every symbol has an id of its own (an API-marked message too: a token that is
+// reported although it should not be must stay attributable to one cause - API request, reset, duplicate).
+func AlphabetRepeat(t *Node) (alpha []Msg, ids []int) {
+	alpha = AlphabetX(t, true)
+	for _, m := range append([]Msg(nil), alpha...) {
+		if m.API || m.Shape != 0 || m.Flip != 0 {
+			continue
+		}
+		records := false
+		for _, r := range Eval(t, m, 0) {
+			records = records || r.Kind != KPingback
+		}
+		if records {
+			m.Twin = 1
+			alpha = append(alpha, m)
+		}
+	}
+	class := map[Msg]int{}
+	for _, m := range alpha {
+		if _, ok := class[m]; !ok {
+			class[m] = len(class) + 1
+		}
+		ids = append(ids, class[m])
+	}
+	return alpha, ids
+}
+
+// RepeatTrees: every verifier kind in every parameterisation at the top level, in a group, in the true branch and in
+// the else branch of a filter; the original parameterisations also in a nested group, in both branches of one filter
+// and in a group in an else branch; pairs of verifiers under one group and in the two branches of a filter; filters of
+// the other kinds (header and cookie filters route the response by the response). Thorough: all pairs, every kind
+// under every filter kind, scoped header verifiers and aggregating groups.
+func RepeatTrees(tier string) []*Node {
+	var out []*Node
+	for k := 0; k < NumLeafKinds; k++ {
+		for _, v := range leafVars[k] {
+			l := Leaf(k).With(v)
+			out = append(out, l.Number(), Group(l).Number(), FilterT(l).Number(), FilterE(l).Number())
+			if v == 0 {
+				out = append(out, Group(Group(l)).Number(), FilterTE(l, l).Number(), FilterE(Group(l)).Number())
+			}
+		}
+	}
+	pairs := [][2]int{{KStatus, KHeader}, {KHeader, KStatus}, {KFailure, KMethod}, {KURL, KQuery}, {KStatus, KStatus}, {KHeader, KHeader}}
+	if tier == "thorough" {
+		pairs = nil
+		for a := 0; a < NumLeafKinds; a++ {
+			for b := 0; b < NumLeafKinds; b++ {
+				pairs = append(pairs, [2]int{a, b})
+			}
+		}
+	}
+	for _, p := range pairs {
+		out = append(out, Group(Leaf(p[0]), Leaf(p[1])).Number())
+		if p[0] != p[1] {
+			out = append(out, FilterTE(Leaf(p[0]), Leaf(p[1])).Number())
+		}
+	}
+	for fk := 1; fk < NumFilterKinds; fk++ {
+		out = append(out, FilterTE(Leaf(KStatus), Leaf(KHeader)).With(fk).Number())
+		if tier == "thorough" {
+			for k := 0; k < NumLeafKinds; k++ {
+				out = append(out, FilterT(Leaf(k)).With(fk).Number(), FilterE(Leaf(k)).With(fk).Number())
+			}
+		}
+	}
+	if tier == "thorough" {
+		for _, sc := range []int{ScReq, ScRes, ScBoth} {
+			out = append(out, Leaf(KHeader).Scoped(sc).Number(), Group(Leaf(KHeader), Leaf(KStatus)).Scoped(sc).Number())
+		}
+		for k := 0; k < NumLeafKinds; k++ {
+			out = append(out, Group(Leaf(k), Leaf(KFailure)).Aggregating().Number())
+		}
+	}
+	return out
+}
